@@ -1050,7 +1050,7 @@ def trailing_damage(rng, host, restricted):
 
 def generate_e2e(ctx, hosts, tmp, res_counts):
     rng = ctx.rng
-    scale = SIZES.get('override_e2e') or (60 if ctx.quick else 500)
+    scale = SIZES.get('override_e2e') or (48 if ctx.quick else 500)
     e2e = E2e(tmp)
     out = []
     for entry in E2E:
@@ -1129,7 +1129,7 @@ def generate_e2e(ctx, hosts, tmp, res_counts):
             out.append(c)
         # --- a complete expression followed by trailing damage on the same line: must be a syntax error in EVERY host
         #     instruction (the expression parser stops before the damage and relies on the host to refuse what is left)
-        for _ in range(max(8, scale // 5)):
+        for _ in range(max(10, scale // 5)):
             while True:
                 e = gen_expr(rng, host, rng.randint(0, 2), 2)
                 if leaf_ok(e):
